@@ -34,7 +34,8 @@ def run(ck):
         "sets of integers and simple fractions; larger shapes only through M3",
         "float comparison |obs-exp| <= 1e-8 max(1,|exp|) against exact rationals",
         "statistics are built by setting t, n, sum_px directly; t is the integer sum of the occupations",
-        "channel offsets are passed the way the library's own callers pass them: one (C, D) array per test item",
+        "channel offsets are passed the way the library's own callers pass them: one (C, D) array per test item, or one "
+        "(C, D) array shared by all the items (ISVMachine.score / JFAMachine.score)",
         "M3: finite differences with step 1e-3 (in units of the UBM standard deviation) and Richardson "
         "extrapolation, accepted within 1e-5 of the score's natural scale sum |a b|"]
     case = getattr(ck, "replay_case", None)
@@ -188,6 +189,17 @@ def replay(ck, em, rec, rng, p_rel, affines):
                                                "bare 2-D array" if isinstance(o, np.ndarray) else "list"))):
             return
 
+        # one (C, D) offset shared by all the test items (the way ISVMachine.score / JFAMachine.score call it):
+        # the formula with that offset for every item, i.e. each item scored alone with it
+        if offs is not None:
+            shared = offs[rng.randrange(len(offs))]
+            alone = np.concatenate([call(primary, arg, [stats[p]], [shared], norm) for p in range(ns)], axis=1)
+            if not check(call(primary, arg, stats, shared, norm), "one (C, D) offset shared by the %d test items" % ns,
+                         "SharedOffset", alone):
+                return
+            if not check(call(primary, arg, stats, [shared] * ns, norm), "the shared offset repeated per item",
+                         "SharedOffset", alone):
+                return
         # ---- derived calls on the real code (the facts TLC checked of the formula)
         if rng.random() < p_rel:
             mu = mat(s["ubm"]["means"])
@@ -305,6 +317,24 @@ def m3(ck, em, rng, ntraces):
                 scale_o = float(np.sum(np.abs(delta / var * (F_ - N_[:, None] * (mu + off)))))
                 fact("AuxDerivativeWithOffsetIsScore", abs(dq - sc_off[i, 0]) <= 1e-7 * max(scale_o, abs(aux(0.0)) * 1e-3, 1e-9),
                      model=i, difference_quotient=dq, score=float(sc_off[i, 0]))
+            # several test items in one call: every column is the item scored alone, whatever the number of items
+            # (numbers of items equal to the number of Gaussians / of features included), with the offsets shared,
+            # per item, or absent
+            for k in sorted({1, 2, c, d, int(r.randint(1, 6))}):
+                cuts = np.linspace(0, n, k + 1).astype(int)
+                items = [ubm.acc_stats(X[a:b]) if b > a else em.GMMStats(c, d) for a, b in zip(cuts[:-1], cuts[1:])]
+                per = [r.normal(size=(c, d)) * 0.5 for _ in items]
+                for nrm in (False, True):
+                    for how, o, oi in (("shared (C, D) offset", off, [off] * k), ("per-item offsets", per, per),
+                                       ("3-D array of offsets", np.array(per), per), ("no offset", None, None)):
+                        kw = {} if o is None else {"test_channel_offsets": o}
+                        allc = np.asarray(em.linear_scoring(models, ubm, items, frame_length_normalization=nrm, **kw))
+                        one = np.concatenate([np.asarray(em.linear_scoring(
+                            models, ubm, [items[p]], frame_length_normalization=nrm,
+                            **({} if o is None else {"test_channel_offsets": [oi[p]]}))) for p in range(k)], axis=1)
+                        sc_ = float(np.max(np.abs(one))) + 1e-12
+                        fact("ItemsScoredIndependently", allc.shape == one.shape and np.max(np.abs(allc - one)) <= 1e-9 * sc_,
+                             items=k, offsets=how, normalised=nrm, together=allc.tolist(), alone=one.tolist())
             big = float(np.max(np.abs(sc))) + 1e-12
             fact("NormalisedIsScoreOverT", np.all(np.isfinite(sc_norm)) and np.max(np.abs(sc_norm * n - sc)) <= 1e-9 * big,
                  normalised=sc_norm.tolist(), score=sc.tolist(), t=n)
